@@ -52,7 +52,7 @@ def _default_for(rng: random.Random, typ: str, nullable: bool) -> tuple[object, 
     if typ == "float64":
         return rng.choice(("0.0", "1.5", "-2.25", "1e10", "0")), "default:float"
     if typ == "string":
-        return rng.choice(("", "foo", "a b", "it's", "ü")), "default:string"
+        return rng.choice(("", "foo", "a b", "it's", "ü", "PLAIN", "DefaultGroup", "Mixed Case 1", "TRUE", "0x1F", "null ")), "default:string"
     return None
 
 
